@@ -1,12 +1,14 @@
 /-
   C04 - accessibility of every entity follows Fortran's PUBLIC/PRIVATE rules.
   Property theorems only; the model is FordModel/Access.lean (tables from
-  Generated/C04.lean), the specification FordModel/AccessSpec.lean, helper
-  lemmas FordModel/Lemmas/Access.lean.
+  Generated/C04.lean) with the name keying of FordModel/AccessNames.lean in front of it, the specification
+  FordModel/AccessSpec.lean, helper lemmas FordModel/Lemmas/Access.lean and FordModel/Lemmas/AccessNames.lean.
 -/
 import FordModel.Access
 import FordModel.AccessSpec
 import FordModel.Lemmas.Access
+import FordModel.AccessNames
+import FordModel.Lemmas.AccessNames
 namespace Ford.C04
 open Ford Ford.Access
 
@@ -564,6 +566,112 @@ theorem generated_tables_sound :
     attribPasses = itemPasses ++ [.var] ∧ exportWords = [.pub, .prot] ∧
     readWrapper = true ∧ readGeneric = false ∧ readModule = false := by
   refine ⟨by decide, fun c => by cases c <;> decide, by decide, ?_⟩
+  decide
+
+
+/-! ## Name keying: "an access statement naming the entity" reaches it however either is written -/
+
+/-- **Declaration side.**  For every entity list of a type declaration statement written in any of the ways
+    F2018 R803 allows - each object name in any letter case, blanks before and after it, followed by nothing, an
+    array-spec `(..)`, a coarray-spec `[..]`, a char-length `*..` or an initialisation `= ..` / `=> ..` with
+    arbitrary (balanced) text - the keys under which `process_attribs` looks the declared variables up in
+    `attr_dict` are exactly the lower-cased names, in order.  The hypotheses are literal Fortran syntax; the proof
+    rests on the *measured* tables `declDropChars` and `cutChars` (it breaks when the code stops removing the
+    blanks of an entity-decl or stops cutting the name at `(`, `[`, `*`). -/
+theorem declared_name_key (ds : List DeclSp) (hne : ds ≠ []) (h : ∀ d ∈ ds, d.Ok) :
+    declKeys (joinSep ',' (ds.map DeclSp.text)) = ds.map (fun d => lower d.name) :=
+  declKeys_spelled ds hne h
+
+/-- non-vacuity: `Grid (10, 10) = 0`, ` label *8`, `nlev (2) = [1, 2]`, `co [*]`, `p => null()` are such spellings,
+    and the model computes the keys `grid`, `label`, `nlev`, `co`, `p` for the list written in one statement -/
+example :
+    (∀ d ∈ [(⟨0, chars! "Grid", 1, chars! "(10, 10) = 0"⟩ : DeclSp), ⟨1, chars! "label", 1, chars! "*8"⟩,
+      ⟨1, chars! "nlev", 1, chars! "(2) = [1, 2]"⟩, ⟨0, chars! "co", 1, chars! "[*]"⟩,
+      ⟨1, chars! "p", 1, chars! "=> null()"⟩], d.Ok)
+    ∧ declKeys (chars! "Grid (10, 10) = 0, label *8, nlev (2) = [1, 2],co [*], p => null()")
+      = [chars! "grid", chars! "label", chars! "nlev", chars! "co", chars! "p"] := by
+  decide
+
+/-- **Statement side.**  The name list of an attribute statement (`public :: A , b,C`), every name in any letter
+    case with blanks around it, is filed in `attr_dict` under the lower-cased names - with and without the
+    candidate repair of the generic-spec keys. -/
+theorem statement_name_key (g : Bool) (ns : List NameSp) (hne : ns ≠ []) (h : ∀ d ∈ ns, IsIdent d.name) :
+    stmtKeys g (joinSep ',' (ns.map NameSp.text)) = ns.map (fun d => lower d.name) :=
+  stmtKeys_spelled g ns hne h
+
+/-- **The spelling is irrelevant.**  A specification part written in any spelling (`SpellsAll`: declarations as in
+    `declared_name_key`, attribute statements as in `statement_name_key`, generic names in any letter case) gives
+    the same result - permissions of all entities, components, bindings, `public_list`, export tables - as its
+    canonical form with lower-cased names.  Hence every theorem of this file that is stated for abstract programs
+    holds for the program as it is written. -/
+theorem spelling_irrelevant (v : Variant) (g sub : Bool) (rs : List RStmt) (ss : List Stmt) (h : SpellsAll rs ss) :
+    runRaw v g sub rs = runUnit v sub ss := by
+  unfold runRaw
+  rw [keyed_spells_list g rs ss h]
+
+/-- **Module-level entities as written** (`access_correct_partial` carried over to the source text): whenever the
+    statements `rs` spell the specification part `pre ++ d :: post`, the permission FORD ends up with for every entity
+    `d` declares is Fortran's accessibility - same hypotheses, same explicit exclusion. -/
+theorem access_correct_as_written_partial (v : Variant) (g : Bool) (rs : List RStmt) (pre post : List Stmt) (d : Stmt)
+    (c : Cat) (n : Str) (attrs : List Attr)
+    (hs : SpellsAll rs (pre ++ d :: post))
+    (hx : (c, n, attrs) ∈ declares d)
+    (hnames : NamesOnce (pre ++ d :: post))
+    (hbare : BareLegal (pre ++ d :: post))
+    (hproc : isProc d = true → Stmt.contains ∈ pre)
+    (hone : OneAccessSpec (pre ++ d :: post) attrs n)
+    (hprot : hasProtected (pre ++ d :: post) attrs n = false)
+    (hlate : ¬ LateDefault (pre ++ d :: post) post attrs n) :
+    ∃ e ∈ (runRaw v g false rs).ents, e.cat = c ∧ e.name = n ∧
+      e.perm = fortranAccess (pre ++ d :: post) attrs n := by
+  rw [spelling_irrelevant v g false rs _ hs]
+  exact access_correct_partial v pre post d c n attrs hx hnames hbare hproc hone hprot hlate
+
+/-- non-vacuity of `SpellsAll`: `private` / `PUBLIC :: Grid , nlev` / `real :: grid (10, 10), NLEV(2) = 0` spells the
+    canonical program, and FORD's mechanism reports both variables public -/
+example :
+    SpellsAll
+      [.plain (.bare .priv), .accessR (.acc .pub) (chars! "Grid , nlev"),
+       .varR (chars! "grid (10, 10), NLEV(2) = 0") []]
+      [.bare .priv, .access (.acc .pub) [chars! "grid", chars! "nlev"], .var [chars! "grid", chars! "nlev"] []]
+    ∧ ((runRaw asIs false false
+      [.plain (.bare .priv), .accessR (.acc .pub) (chars! "Grid , nlev"),
+       .varR (chars! "grid (10, 10), NLEV(2) = 0") []]).ents.map (fun e => (e.name, e.perm)))
+      = [(chars! "grid", Perm.pub), (chars! "nlev", Perm.pub)] := by
+  refine ⟨.cons (.plain _) (.cons ?_ (.cons ?_ .nil)), by decide⟩
+  · exact Spells.access (.acc .pub) [⟨0, chars! "Grid", 1⟩, ⟨1, chars! "nlev", 0⟩] (by decide) (by decide)
+  · exact Spells.var [⟨0, chars! "grid", 1, chars! "(10, 10)"⟩, ⟨1, chars! "NLEV", 0, chars! "(2) = 0"⟩] []
+      (by decide) (by decide)
+
+/-- **Known defect (generic-spec written with other blanks).**  `private` / `public :: operator (+)` /
+    `interface operator(+)`: the statement is filed under `operator (+)`, the interface looked up under
+    `operator(+)`; the operator stays private (Fortran: public) and the unknown key ends in `public_list`.  With the
+    candidate repair (`g = true`: a key containing `(` loses its blanks on both sides) it is public.  The same
+    spelling on both sides works either way. -/
+theorem generic_spec_spelling_witness (v : Variant) :
+    let prog := fun (s i : Str) => [RStmt.plain (.bare .priv), .accessR (.acc .pub) s, .genericR i [] [chars! "f"]]
+    ((runRaw v false false (prog (chars! "operator (+)") (chars! "operator(+)"))).ents.map (·.perm) = [.priv])
+    ∧ ((runRaw v true false (prog (chars! "operator (+)") (chars! "operator(+)"))).ents.map (·.perm) = [.pub])
+    ∧ ((runRaw v false false (prog (chars! "Operator (+)") (chars! "OPERATOR (+)"))).ents.map (·.perm) = [.pub])
+    ∧ fortranAccess [.bare .priv, .access (.acc .pub) [chars! "operator(+)"],
+        .iface .generic (chars! "operator(+)") [] [chars! "f"]] [] (chars! "operator(+)") = .pub := by
+  obtain ⟨d, e, s⟩ := v
+  cases d <;> cases e <;> cases s <;> decide
+
+/-- **Generic-specs, repaired keying.**  With the candidate repair the key under which an attribute statement files a
+    generic-spec and the key under which the interface of that generic-spec is looked up coincide whenever the two
+    spellings differ only in blanks and letter case. -/
+theorem generic_spec_key_repaired (a b : Str) (hp : '(' ∈ a)
+    (h : (lower a).filter (fun c => !isSpace c) = (lower b).filter (fun c => !isSpace c)) :
+    nameKey true a = ifaceKey true b :=
+  generic_key_repaired a b hp h
+
+/-- the measured character tables of the name keying say what the theorems above use: an entity-decl loses its
+    blanks (and nothing else), a name ends at `(`, `*`, `[`, and `paren_split` nests on exactly the two bracket
+    pairs the shared model `Ford.parenSplit` has built in. -/
+theorem name_tables_sound :
+    declDropChars = [' '] ∧ cutChars = ['(', '*', '['] ∧ splitLevelChars = ['(', ')', '[', ']']
+    ∧ splitPairs = [('(', ')'), (')', '('), ('[', ']'), (']', '[')] := by
   decide
 
 end Ford.C04
